@@ -71,8 +71,9 @@ class TaskResult:
         self.cases += 1
         self.evaluations += evals
         try:
-            nt = bool(clause.nontrivial(case))
-            labels = clause.classify(case) or []
+            # an oracle that reports 0 evaluations says the case fell outside the clause's domain: never non-trivial
+            nt = bool(clause.nontrivial(case)) and evals > 0
+            labels = (clause.classify(case) or []) if evals > 0 else ["(outside the clause's domain)"]
         except Exception as e:  # harness bug
             raise HarnessError(f"nontrivial/classify failed for {clause.id}: {e!r}") from e
         for lab in labels:
